@@ -62,7 +62,7 @@ func loadWorld(repo, verif string) (*World, error) {
 	if len(pkgs) > 0 {
 		w.fset = pkgs[0].Fset
 	}
-	prog, spkgs := ssautil.Packages(pkgs, ssa.InstantiateGenerics)
+	prog, spkgs := ssautil.Packages(pkgs, ssa.InstantiateGenerics|ssa.GlobalDebug)
 	prog.Build()
 	w.prog = prog
 	for i, sp := range spkgs {
@@ -185,6 +185,9 @@ func (w *World) addSpecFile(sf *SpecFile) error {
 		if !c.Assumed || (sf.Pkg != "" && !strings.Contains(c.Func, "/") && !isStdQualified(c.Func)) {
 			abs = absName(c.Func, sf.Pkg)
 		}
+		if c.Variant != "" {
+			abs += "@" + c.Variant
+		}
 		if old, ok := w.contracts[abs]; ok {
 			return fmt.Errorf("%s:%d: contract for %s redefined (first at %s:%d)", c.File, c.Line, abs, old.File, old.Line)
 		}
@@ -302,4 +305,13 @@ func (w *World) lookupType(expr string, pkgPath string) (types.Type, error) {
 		}
 	}
 	return nil, fmt.Errorf("cannot resolve type %q in %s: %v", expr, pkgPath, err)
+}
+
+
+// funcOf resolves a contract key (possibly "name@variant") to the SSA function.
+func (w *World) funcOf(key string) *ssa.Function {
+	if i := strings.LastIndex(key, "@"); i >= 0 {
+		key = key[:i]
+	}
+	return w.funcs[key]
 }
